@@ -145,6 +145,21 @@ type assocClient struct {
 	binT     types.Type
 	inT      types.Type
 	recCalls int
+	inConts  int // iterations that built an InExpr and went on with the operator loop
+	inBad    string
+}
+
+// LoopBack: an iteration of the operator loop that built an `in` test goes on with that test as the left operand.
+func (c *assocClient) LoopBack(e *Engine, st *State, loop ast.Stmt) {
+	fs, ok := loop.(*ast.ForStmt)
+	if !ok || e.P.Parent(e.P.Parent(fs)) != ast.Node(e.Func) || st.Ext("sawIn") != "1" || !e.Reporting() {
+		return
+	}
+	c.inConts++
+	f := st.GetVar(e.objKey(c.xParam))
+	if f == nil || len(f.TyIn) != 1 || f.TyIn[0] != "*parser.InExpr" {
+		c.inBad = "an iteration that parsed `x in (...)` continues the operator loop while the accumulated expression is not (known to be) the InExpr just built"
+	}
 }
 
 // precVarOf: returns the key of a variable assigned from operatorPrecedence(...), recorded in ext.
@@ -166,7 +181,7 @@ func (c *assocClient) PostAssign(e *Engine, st *State, lhs, rhs []ast.Expr, _ as
 func (c *assocClient) LoopHead(e *Engine, st *State, loop ast.Stmt) *State {
 	// entering the outer loop body starts a new operator
 	if fs, ok := loop.(*ast.ForStmt); ok && e.P.Parent(e.P.Parent(fs)) == ast.Node(e.Func) {
-		return st.WithExt("prec1", "").WithExt("prec2", "")
+		return st.WithExt("prec1", "").WithExt("prec2", "").WithExt("sawIn", "")
 	}
 	return st.WithExt("prec2", "")
 }
@@ -194,12 +209,22 @@ func (c *assocClient) PreCall(e *Engine, st *State, call *ast.CallExpr, callee *
 	// (b) it is only taken when the look-ahead operator binds strictly tighter
 	p2 := st.Ext("prec2")
 	okGt := false
-	if p1 != "" && p2 != "" {
-		if f := st.Get("(" + p1 + " < " + p2 + ")"); f != nil && f.HasEq && f.Eq == "true" {
-			okGt = true
-		}
-		if f := st.Get("(" + p2 + " <= " + p1 + ")"); f != nil && f.HasEq && f.Eq == "false" {
-			okGt = true
+	// the precedence of the look-ahead token: a variable assigned from operatorPrecedence(...) or the call itself
+	isPrec := func(k string) bool {
+		return (p2 != "" && k == p2) || (strings.HasPrefix(k, "call:"+c.precFn.FullName()+"(") && k != p1)
+	}
+	if p1 != "" {
+		for _, k := range st.Keys() {
+			f := st.Get(k)
+			if f == nil || !f.HasEq {
+				continue
+			}
+			if strings.HasPrefix(k, "("+p1+" < ") && strings.HasSuffix(k, ")") && f.Eq == "true" && isPrec(k[len("("+p1+" < "):len(k)-1]) {
+				okGt = true
+			}
+			if strings.HasSuffix(k, " <= "+p1+")") && strings.HasPrefix(k, "(") && f.Eq == "false" && isPrec(k[1:len(k)-len(" <= "+p1+")")]) {
+				okGt = true
+			}
 		}
 	}
 	e.Site("C07/assoc", key+": guard", call, okGt, "taken only when the next operator binds strictly tighter than the current one")
@@ -251,6 +276,7 @@ func (c *assocClient) Visit(e *Engine, st *State, n ast.Node) *State {
 		if !okX {
 			e.Site("C07/in", key, cl, false, "the left operand of `in` is not the expression accumulated so far")
 		}
+		return st.WithExt("sawIn", "1")
 	}
 	return nil
 }
@@ -292,29 +318,8 @@ func ruleC07Assoc(p *Program, r *Run) {
 	r.Check(c.recCalls > 0, "C07/assoc", fn+" climbs", p.Pos(fd.Pos()), "higher-precedence operators are resolved by a recursive call", "no recursive call: operators are folded strictly left to right, ignoring precedence")
 	r.Floor("C07/assoc", 5)
 
-	// the successful `in` branch continues the loop with the InExpr as the new left operand
-	okCont := false
-	ast.Inspect(fd.Body, func(n ast.Node) bool {
-		ifs, ok := n.(*ast.IfStmt)
-		if !ok {
-			return true
-		}
-		b, ok := ast.Unparen(ifs.Cond).(*ast.BinaryExpr)
-		if !ok || b.Op != token.EQL || constName(info, b.Y) != "TokenIn" {
-			return true
-		}
-		l := ifs.Body.List
-		if len(l) >= 2 {
-			as, ok1 := l[len(l)-2].(*ast.AssignStmt)
-			br, ok2 := l[len(l)-1].(*ast.BranchStmt)
-			if ok1 && ok2 && br.Tok == token.CONTINUE && len(as.Lhs) == 1 && objOf(info, as.Lhs[0]) == c.xParam {
-				if lit := litOf(as.Rhs[0]); lit != nil && types.Identical(info.TypeOf(lit), c.inT) {
-					okCont = true
-				}
-			}
-		}
-		return true
-	})
+	// the successful `in` branch continues the loop with the InExpr as the new left operand (path facts at the loop's back edge)
+	okCont := c.inConts > 0 && c.inBad == ""
 	r.Check(okCont, "C07/in", fn+" `in` continues the operator loop", p.Pos(fd.Pos()), "after `x in (...)` the loop continues with the InExpr as left operand: any following operator applies to the whole test", "after a complete `x in (...)` the operator loop is not continued with the InExpr as the new left operand: `a in (1) and b` would lose or misplace the following operator")
 	r.Floor("C07/in", 3)
 
@@ -348,49 +353,22 @@ func ruleC07Shapes(p *Program, r *Run) {
 	un := p.MustFunc(pkg, "parser.unaryExpr")
 	r.Saw(FuncName(pkg, un))
 	primary := FuncObj(pkg, p.MustFunc(pkg, "parser.primaryExpr"))
-	found := false
-	ast.Inspect(un.Body, func(n ast.Node) bool {
-		cc, ok := n.(*ast.CaseClause)
-		if !ok {
-			return true
-		}
-		signs := map[string]bool{}
-		for _, e := range cc.List {
-			signs[constName(info, e)] = true
-		}
-		if !signs["TokenPlus"] && !signs["TokenMinus"] {
-			return true
-		}
-		found = true
-		r.Check(signs["TokenPlus"] && signs["TokenMinus"] && len(signs) == 2, "C07/sign", "parser.(*parser).unaryExpr sign tokens", p.Pos(cc.Pos()), "exactly + and - are prefix signs", fmt.Sprintf("the sign case lists %v, documented: + and -", keysOf(signs)))
-		var callee *types.Func
-		ast.Inspect(cc, func(m ast.Node) bool {
-			if call, ok := m.(*ast.CallExpr); ok {
-				if f := Callee(info, call); f != nil && f.Pkg() == pkg.Types && f.Type().(*types.Signature).Recv() != nil && strings.HasSuffix(strings.ToLower(f.Name()), "expr") {
-					callee = f
-				}
-			}
-			return true
-		})
-		r.Check(callee == primary, "C07/sign", "parser.(*parser).unaryExpr sign operand", p.Pos(cc.Pos()), "operand of a sign is a primary expression (binds tighter than any binary operator, looser than indexing and calls)", fmt.Sprintf("the operand of a sign is parsed by %v, not by primaryExpr: `-a * b` or `- -a` would group differently from the documented grammar", callee))
-		// the UnaryExpr keeps the operator
-		okOp := false
-		ast.Inspect(cc, func(m ast.Node) bool {
-			if cl, ok := m.(*ast.CompositeLit); ok && TypeStr(info.TypeOf(cl)) == "parser.UnaryExpr" {
-				if op := litField(info, cl, "Op"); op != nil {
-					if sel, ok := ast.Unparen(op).(*ast.SelectorExpr); ok && sel.Sel.Name == "Kind" {
-						okOp = true
-					}
-				}
-			}
-			return true
-		})
-		r.Check(okOp, "C07/sign", "parser.(*parser).unaryExpr keeps the sign", p.Pos(cc.Pos()), "UnaryExpr.Op is the sign token's kind", "the UnaryExpr does not record the sign token's kind")
-		return true
-	})
-	if !found {
-		r.Fail("C07/sign", "parser.(*parser).unaryExpr sign case", p.Pos(un.Pos()), "no case for TokenPlus/TokenMinus found")
+	// Decided on the path facts at the place the UnaryExpr is built: which token kinds the sign can have there, that
+	// the node records the kind of the token just read, and which production parsed the operand.
+	sc := &signClient{p: p, kinds: map[string]bool{}, next: FuncObj(pkg, p.MustFunc(pkg, "parser.next"))}
+	se := NewEngine(p, pkg, un, sc)
+	se.Run(nil)
+	for _, m := range se.Errs {
+		r.Fail("C07/sign", "parser.(*parser).unaryExpr engine", "-", m)
 	}
+	if sc.lits == 0 {
+		r.Fail("C07/sign", "parser.(*parser).unaryExpr sign case", p.Pos(un.Pos()), "no UnaryExpr is built by unaryExpr")
+	} else {
+		r.Check(sc.kinds["TokenPlus"] && sc.kinds["TokenMinus"] && len(sc.kinds) == 2, "C07/sign", "parser.(*parser).unaryExpr sign tokens", p.Pos(un.Pos()), "exactly + and - are prefix signs (token kinds possible where the UnaryExpr is built)", fmt.Sprintf("a UnaryExpr is built for token kinds %v, documented: + and -", keysOf(sc.kinds)))
+		r.Check(sc.operand == primary && !sc.operandBad, "C07/sign", "parser.(*parser).unaryExpr sign operand", p.Pos(un.Pos()), "operand of a sign is a primary expression (binds tighter than any binary operator, looser than indexing and calls)", fmt.Sprintf("the operand of a sign is parsed by %v, not by primaryExpr: `-a * b` or `- -a` would group differently from the documented grammar", sc.operand))
+		r.Check(sc.keepsOp, "C07/sign", "parser.(*parser).unaryExpr keeps the sign", p.Pos(un.Pos()), "UnaryExpr.Op is the kind of the token read as the sign", "the UnaryExpr does not record the sign token's kind")
+	}
+	_ = info
 	r.Floor("C07/sign", 3)
 
 	// synonyms and operator table
@@ -781,4 +759,90 @@ func ruleC07Keeps(p *Program, r *Run) {
 		})
 	}
 	r.Floor("C07/keeps", 25)
+}
+
+// signClient observes the construction of UnaryExpr nodes in unaryExpr.
+type signClient struct {
+	BaseClient
+	p          *Program
+	next       *types.Func
+	kinds      map[string]bool
+	lits       int
+	keepsOp    bool
+	operand    *types.Func
+	operandBad bool
+}
+
+func (c *signClient) PostAssign(e *Engine, st *State, lhs, rhs []ast.Expr, _ ast.Stmt) *State {
+	if len(rhs) != 1 || len(lhs) < 1 {
+		return nil
+	}
+	call, ok := ast.Unparen(rhs[0]).(*ast.CallExpr)
+	if !ok {
+		return nil
+	}
+	f := Callee(e.Info, call)
+	if f == nil {
+		return nil
+	}
+	o := objOf(e.Info, lhs[0])
+	if o == nil {
+		return nil
+	}
+	if f == c.next {
+		return st.WithExt("sign:tok", e.objKey(o))
+	}
+	// a production result: remember which one the variable holds
+	if f.Pkg() != nil && f.Pkg().Path() == PathParser && f.Type().(*types.Signature).Recv() != nil {
+		return st.WithExt("prod:"+e.objKey(o), f.Name())
+	}
+	return nil
+}
+
+func (c *signClient) Visit(e *Engine, st *State, n ast.Node) *State {
+	cl, ok := n.(*ast.CompositeLit)
+	if !ok || TypeStr(e.Info.TypeOf(cl)) != "parser.UnaryExpr" || !e.Reporting() {
+		return nil
+	}
+	c.lits++
+	op := litField(e.Info, cl, "Op")
+	if op != nil {
+		if name := constName(e.Info, op); name != "" {
+			c.kinds[name] = true
+		} else if f := e.FactOf(st, op); f != nil && f.HasEq {
+			c.kinds[c.p.constNameByValue(c.p.Parser, "TokenKind", f.Eq)] = true
+		} else {
+			c.kinds["?"+exprStr(op)] = true
+		}
+		// the recorded kind is that of the token read last
+		if k := e.CanonSt(st, op); k.OK && st.Ext("sign:tok") != "" {
+			tk := st.Ext("sign:tok")
+			if a := st.Get("val:" + tk); a != nil && a.Alias != nil {
+				tk = a.Alias.Key
+			}
+			if k.Key == tk+".Kind" {
+				c.keepsOp = true
+			}
+		}
+	}
+	if x := litField(e.Info, cl, "X"); x != nil {
+		var callee *types.Func
+		if call, ok := ast.Unparen(x).(*ast.CallExpr); ok {
+			callee = Callee(e.Info, call)
+		} else if o := objOf(e.Info, x); o != nil {
+			if name := st.Ext("prod:" + e.objKey(o)); name != "" {
+				if fd := c.p.FuncDecl(c.p.Parser, "parser."+name); fd != nil {
+					callee = FuncObj(c.p.Parser, fd)
+				}
+			}
+		}
+		if c.operand != nil && callee != c.operand {
+			c.operandBad = true
+		}
+		if callee == nil {
+			c.operandBad = true
+		}
+		c.operand = callee
+	}
+	return nil
 }
